@@ -14,7 +14,8 @@ RULE = ('bursts of up to 1000 messages in one poll (4 % of the cases); every pub
 ASSUMPTIONS = ['one poll of the producer = one step of the schedule (the producer yields to the executor exactly once between steps)',
                'the schedule ends with a completing step; a producer that never completes is not in the quantifier']
 POOL = ['a', 'hello world', '', ' lead', '  two', 'x\ny', 'x\r\ny', 'x\ry', 'end\n', 'end\r', 'end\r\n', '\n', '\r', '\r\n', '\n\n', 'data: inj', 'id: 7', ':c', 'event: e\ny', 'ü日本', 'a\n\nb', 'retry: 1',
-        'data:x', 'a\r\rb', 'a\n\rb', 'x' * 300, 'y' * 5000, ':', 'data', '0', '﻿', 'a: b: c']
+        'data:x', 'a\r\rb', 'a\n\rb', 'x' * 300, 'y' * 5000, ':', 'data', '0', '﻿', 'a: b: c'] + \
+       ['z' * (n - 8) for n in (15, 16, 17, 255, 256, 257, 511, 512, 4095, 4096, 0xff0, 0xfff, 0xff00, 0xffff, 0x10000)]          # every digit pattern of the chunk-size line (one line: 'data: ' + text + LF LF)
 
 
 def sched_gen(rng):
